@@ -9,8 +9,8 @@ request.  Transcribed in code order from
 Core Lean only.
 
 Modelling conventions
- * a request is the list of its options in wire order, an option = (number, value bytes); the requests of C11 are GETs (the
-   FETCH body branch of coap_cache_derive_key_w_ignore is not modelled).
+ * a request is the list of its options in wire order, an option = (number, value bytes); the requests of C11 are GETs and
+   FETCHes (`reqDigest`: method code, FETCH payload with its length, then the options).
  * COAP_CACHE_IS_SESSION_BASED: the first 8 bytes fed to the digest are the session POINTER.  M keeps the session apart (the
    `sess` field of an entry, compared by matchSK), `digestInput` is what follows.
  * `opt_iter.number` is a uint16_t, the length a uint32_t, both fed in host byte order (little endian on the build host).
@@ -55,8 +55,21 @@ def encBytes : List Nat → Nat
   | [] => 0
   | b :: r => encBytes r * 257 + (b + 1)
 
-/-- the `key` of Model/Observe.lean for an observe request with these options -/
-def obsKey (opts : List ReqOpt) : Nat := encBytes (digestInput obsIgnore opts)
+/-- the bytes fed to the digest after the session pointer for a request with method code `code` (1 = GET, 5 = FETCH), these
+    options and this payload (round R11c, fix "cache key: method, delimited FETCH payload"): the method code (one byte), then
+    `if (pdu->code == COAP_REQUEST_CODE_FETCH)` the LENGTH of the payload (uint32 LE) and the payload (`coap_get_data` failing
+    = no payload = length 0), then the cache-key options.  The payload of any other method is not part of the key. -/
+def reqDigest (code : Nat) (opts : List ReqOpt) (payload : List Nat) : List Nat :=
+  code :: ((if code == 5 then le32 payload.length ++ payload else []) ++ digestInput obsIgnore opts)
+
+/-- the `key` of Model/Observe.lean for an observe request (GET or FETCH) -/
+def reqKey (code : Nat) (opts : List ReqOpt) (payload : List Nat) : Nat := encBytes (reqDigest code opts payload)
+
+/-- the `key` of Model/Observe.lean for a GET observe request with these options -/
+def obsKey (opts : List ReqOpt) : Nat := reqKey 1 opts []
+
+/-- a payload a datagram can carry: bytes, shorter than 2^32 -/
+def WfPayload (p : List Nat) : Prop := p.length < 4294967296 ∧ ∀ b ∈ p, b < 256
 
 /-- what a real request can carry: 16-bit option numbers, values shorter than 2^32, bytes -/
 def WfOpts (opts : List ReqOpt) : Prop := ∀ o ∈ opts, o.num < 65536 ∧ o.val.length < 4294967296 ∧ ∀ b ∈ o.val, b < 256
